@@ -1,6 +1,6 @@
 (* Check.v — the correspondence check: the executable model is run on the states observed in the Go
    implementation (one snapshot after every step of Layout) and compared with the next observed state. *)
-From Autog Require Export Contracts CrossCount Wmedian Pipeline BK PipelineBK.
+From Autog Require Export Contracts CrossCount Wmedian Pipeline BK PipelineBK PipelineNoop.
 From Coq Require Import NArith.
 Local Open Scope Q_scope.
 
@@ -203,9 +203,10 @@ Definition check_e2e (c : tcase) : list nat :=
               | OtherPositioner, _ => negb (bk_modelled && (-2 <? c_bk c)%Z)
               | _, _ => false
               end in
-  if skip || negb (c_wmedian c) then [] else      (* [layout] always orders with the weighted median *)
-  (* [layout_x] is [layout] unless the positioner is Brandes-Koepf *)
-  match layout_x ident ieqb (c_bk c) (c_opts c) (c_fixed c) (c_sizes c) (c_edges c) with
+  if skip then [] else
+  (* [layout_x] is [layout] unless the positioner is Brandes-Koepf; [layout_n] is the same with OrderingNoop *)
+  match (if c_wmedian c then layout_x ident ieqb (c_bk c) (c_opts c) (c_fixed c) (c_sizes c) (c_edges c)
+         else layout_n ident ieqb (c_bk c) (c_opts c) (c_fixed c) (c_sizes c) (c_edges c)) with
   | Ok (ids, (ns, es, xs)) =>
       (if list_eqb ieqb ids (c_ids c) then [] else [1601%nat])
       ++ (if forall2b (onode_eqb_e2e (length ids)) ns (c_out_nodes c) then [] else [1602%nat])
